@@ -66,6 +66,10 @@ class Contract:
         self.call_default = instance is None
         self.no_call_summary = False
         self.never_returns = False
+        # slice: (prelude statement indices, statement index): only these top-level statements of the body are executed;
+        # all slices of a function share requires == ensures (the mid-condition), which proves the whole sequence
+        self.slice = None
+        self.n_body_statements = None
         self.cost_hint = 1
         # labels of `requires` that are global invariants/environment assumptions: assumed at entry, not
         # re-proved at every internal call site (they are proved as postconditions of the public methods)
